@@ -70,7 +70,9 @@ func genC07(r *sim.Rand, tier string) *sim.Program {
 			continue
 		}
 		ct := r.Intn(nct)
-		switch r.Intn(10) {
+		switch r.Intn(11) {
+		case 10:
+			p.Add("extend", ct, r.PickInt(1, 1, 2, 16, 32, 33)).WithB(r.Bytes(33))
 		case 0:
 			p.Add("dec", ct)
 		case 1, 2:
@@ -303,6 +305,22 @@ func execC07(t *testing.T, p *sim.Program, c *sim.Ctx) {
 				c.Fail("roundtrip", i, op.K, "%s, layout %d: decrypting what the library encrypted does not return the message: %v", cv.Params().Name, lay, err)
 				return
 			}
+			if lay == 2 {
+				// the layout is recognised by its first byte whatever the options (sm2.Decrypt, Decrypt(nil opts)): only
+				// CONSISTENCY between the curves is demanded - what works for an SM2-curve key must work here
+				sct, serr := sm2.Encrypt(&sim.ScriptReader{Data: scalarFrom(kb, "auto"), Fill: 9, Step: 5}, &priv.PublicKey, msg, sm2.ASN1EncrypterOpts)
+				if serr == nil {
+					g1, e1 := sm2.Decrypt(priv, sct)
+					g2, e2 := priv.Decrypt(nil, sct, nil)
+					h1, f1 := sm2.Decrypt(lp, ct)
+					h2, f2 := lp.Decrypt(nil, ct, nil)
+					c.OutErr("legacy-auto", f1)
+					if (e1 == nil && bytes.Equal(g1, msg) && (f1 != nil || !bytes.Equal(h1, msg))) || (e2 == nil && bytes.Equal(g2, msg) && (f2 != nil || !bytes.Equal(h2, msg))) {
+						c.Fail("roundtrip", i, op.K, "%s: an ASN.1 ciphertext decrypted with default options is refused (%v / %v) although the same call works for an SM2-curve key", cv.Params().Name, f1, f2)
+						return
+					}
+				}
+			}
 			// every truncation must be refused without a panic
 			for k := 1; k < len(ct) && k <= 140; k += 1 + k/16 {
 				if g, err := c07LibDecrypt(lp, lay, ct[:len(ct)-k]); err == nil && len(g) >= len(msg) {
@@ -355,6 +373,12 @@ func execC07(t *testing.T, p *sim.Program, c *sim.Ctx) {
 				continue // none found within the budget (or the helper disagrees with the model): nothing to play
 			}
 			k2 := scalar(op.Int(1), "kr2")
+			if sm2m.MaskT(pub, k2, 1)[0] == 0 {
+				// the second scripted scalar has an all-zero mask as well (1 in 256): the algorithm legitimately draws a
+				// third one; this program is not played
+				c.Hit("probe:natural-zero-mask-not-judged")
+				continue
+			}
 			msg := []byte{byte(op.Int(1)) | 1}
 			c.Abs("rt", lay)
 			c.Hit("probe:a5-retry-branch-taken")
@@ -469,6 +493,24 @@ func execC07(t *testing.T, p *sim.Program, c *sim.Ctx) {
 				}
 				c.Abs("tr", rec.lay)
 				deliver(i, "truncated", priv, d, rec.lay, rec.ct[:len(rec.ct)-k], rec.msg)
+			case "extend":
+				// bytes appended behind a valid ciphertext: no layout has room for them (ASN.1: trailing data; plain: C2
+				// grows and C3 no longer fits), so neither decryption nor a converter-then-decryption chain may return a message
+				k := op.Int(1)
+				if k < 1 || k > 64 {
+					k = 1
+				}
+				ext := append(append([]byte{}, rec.ct...), fitKey(op.Bytes(0), k)...)
+				c.Abs("ext", rec.lay, k)
+				c.Hit("fault:extended")
+				deliver(i, "extended", priv, d, rec.lay, ext, nil)
+				if !c.Failed() && rec.lay == 2 {
+					if plain, err := sm2.ASN1Ciphertext2Plain(ext, nil); err == nil {
+						if got, err := sm2.Decrypt(priv, plain); err == nil {
+							c.Fail("invalid-ciphertext-accepted", i, op.K, "ASN1Ciphertext2Plain turns an ASN.1 ciphertext with %d trailing bytes into a plain ciphertext that decrypts (%d bytes)", k, len(got))
+						}
+					}
+				}
 			case "c1":
 				kind := op.Int(1) & 3
 				var c1 sm2m.Point
